@@ -183,10 +183,10 @@ Proof.
   destruct (tok_core_reads dec2f dec2d _ _ (tok_k_core dec2f dec2d k last Hgl) rest Hr) as [_ Hrd].
   subst f1. rewrite Hrd, Hu. cbn [andb].
   destruct Hctx as [(-> & Hd & Hm2)|(-> & a & -> & Hda)].
-  - rewrite (dfa_unity k b last d m l); try assumption; try lia;
+  - rewrite delta_x_mk, (dfa_unity k b last d m l); try assumption; try lia;
       try (now apply small_inr).
     replace (m =? -1) with false by lia. reflexivity.
-  - rewrite (dfa_delta k a b last d m); try assumption; try lia;
+  - rewrite delta_x_mk, (dfa_delta k a b last d m); try assumption; try lia;
       try (now apply small_inr).
     replace (m =? -1) with false by lia. reflexivity.
 Qed.
@@ -241,10 +241,10 @@ Proof.
   replace (av_type (mk k b) =? av_type (mk k last)) with true by (destruct k; reflexivity).
   cbn [negb andb]. rewrite Hchk. cbn [orb andb].
   destruct Hctx as [(-> & Hd & Hm2)|(-> & a & -> & Hda)].
-  - rewrite (dfa_unity k b last d m (mk k b)); try assumption; try lia;
+  - rewrite delta_x_mk, (dfa_unity k b last d m (mk k b)); try assumption; try lia;
       try (now apply small_inr).
     replace (m =? -1) with false by lia. reflexivity.
-  - rewrite (dfa_delta k a b last d m); try assumption; try lia;
+  - rewrite delta_x_mk, (dfa_delta k a b last d m); try assumption; try lia;
       try (now apply small_inr).
     replace (m =? -1) with false by lia. reflexivity.
 Qed.
@@ -444,7 +444,7 @@ Proof.
       match goal with |- context [2 <? ?x] => assert (E23 : (2 <? x) = true) by (apply Z.ltb_lt; lia); rewrite E23 end.
       rewrite (back_app acc _ 3), (back_app acc _ 2), (back_app acc _ 1) by (cbn; lia).
       cbn [rev app nth_error Nat.pred]. replace (1 =? 0) with false by reflexivity. cbn [negb].
-      rewrite range_arg_mk by lia. f_equal. f_equal. rewrite <- Hlast.
+      rewrite range_arg_x_mk, range_arg_mk by lia. f_equal. f_equal. rewrite <- Hlast.
       replace (b + (m - 1) * d) with last by lia. apply wr_id. now apply small_inr.
 Qed.
 
